@@ -130,6 +130,8 @@ def run(F, chk):
                     G1.violation(('builder-appends-unconditionally', root), 'the index builder appends to filtered_msgs outside `filters_active` (the belief behind G1 no longer holds)', where=bb.loc(blk.term.sp))
     check_window_change(F, G2)
     check_progress(F, G5)
+    G7 = chk.rule('G7', 'search paging: the loop counter is advanced exactly once after each examined element and the continuation returned is the counter itself')
+    check_paging(F, G7)
 
 
 FMT_SINK = re.compile(r'^core::fmt::rt::Argument::<.*>::new_|^core::fmt::Arguments|^std::fmt::Arguments')
@@ -286,3 +288,113 @@ def check_progress(F, G5):
                              'sender loop: msgs_sent.end is set to %s (must be min(stream length, msgs_to_send.end): %s) and is stored after the send loops on all non-error paths: %s' % (vs[:80], is_min, must),
                              where=b.loc(s.sp))
     G5.floor('stores to msgs_sent.end in the sender loop', n, 1)
+
+
+# ---------------------------------------------------------------------------------------------
+# G7: search paging - the continuation position is the loop counter itself
+
+def check_paging(F, G7):
+    """In the search helper the loop counter is advanced exactly once on every path from the
+    examination of an element to the loop exit (so it denotes the first unexamined position);
+    the continuation returned to the client must then be the counter itself."""
+    import pairing
+    from paths import Explorer
+    n = 0
+    for b in F.order:
+        if b.crate != 'bin' or b.kind == 'closure':
+            continue
+        at = b.arg_types()
+        if not (any('StreamContext' in t for t in at) and any(t.startswith('&[adlt::dlt::DltMessage]') for t in at) and any('WebSocket<' in t for t in at)):
+            continue
+        cfg = CFG(b)
+        E = ExprBuilder(cfg)
+        loops = cfg.loops()
+        # loop counter = the named local compared in a loop-exit condition; examination sites = uses of the counter as an index
+        counter = None
+        hd = None
+        for h, body_ in sorted(loops.items(), key=lambda x: -len(x[1])):
+            for blk_i in sorted(body_):
+                blk = b.blocks[blk_i]
+                if blk.term.k == 'switch' and any(s_ not in body_ for s_ in cfg.succ[blk_i]):
+                    c = E.switch_cond(blk)
+                    if isinstance(c, tuple) and c[0] == 'bin' and c[1] in ('Lt', 'Le') and isinstance(c[2], tuple) and c[2][0] == 'place' and len(c[2]) == 2:
+                        counter, hd = c[2][1], h
+                        break
+            if counter:
+                break
+        if counter is None:
+            continue
+        lbody = loops[hd]
+        exams = {}
+        for blk_i in lbody:
+            blk = b.blocks[blk_i]
+            t = blk.term
+            if t.k == 'assert' and t.d['ak'] == 'BoundsCheck':
+                ix = E.operand(Operand(t.d['ops'][1]))
+                if ix == ('place', counter):
+                    exams[blk_i] = hd
+            if t.k == 'call' and t.callee.path == 'std::ops::Index::index' and len(t.args) > 1 and E.operand(t.args[1]) == ('place', counter):
+                exams[blk_i] = hd
+        if not exams:
+            continue
+        n += 1
+        G7.fn(b.path)
+        cl = b.locals_named(counter)
+        incs = set()
+        for blk in b.blocks:
+            if blk.cleanup:
+                continue
+            for s in blk.stmts:
+                if s.k == 'assign' and s.place.is_local and s.place.l in cl:
+                    e = E.rvalue(s.rv)
+                    if e == ('bin', 'Add', ('place', counter), ('const', 1)):
+                        incs.add(blk.i)
+
+        def block_effect(blk, facts):
+            if blk.i in exams:
+                facts = pairing.reset(facts, ['inc'])
+                facts = frozenset(facts | {('exam',)})
+            if blk.i in incs:
+                facts = pairing.bump(facts, 'inc')
+            return facts
+        ex = Explorer(cfg, block_effect=block_effect, var_roots=set())
+        ex.run()
+        G7.paths += ex.n_states
+        bad = None
+        nstates = 0
+        # the `?`-style error exits carry no continuation; only normal exits matter, which is what we looked at
+        conts = []
+        for blk in b.blocks:
+            if blk.cleanup or blk.i in lbody:
+                continue
+            for s in blk.stmts:
+                if s.k == 'assign' and s.rv['k'] == 'agg' and s.rv.get('variant') == 'Some':
+                    e = E.rvalue(s.rv)
+                    inner = e[2][0] if e[2] else None
+                    if inner is not None and any(isinstance(y, tuple) and y and y[0] == 'place' and y[1] == counter for y in walk(inner)):
+                        conts.append((blk, s, inner))
+        # the counter must have been advanced exactly once since the last examination on every path reaching a continuation site
+        for (blk, s_, inner) in conts:
+            for st in ex.states.get(blk.i, ()):
+                if ('exam',) in st[1]:
+                    nstates += 1
+                    k = pairing.count(st[1], 'inc')
+                    if k != 1:
+                        bad = (blk.i, st, k)
+        advanced_once = bad is None and nstates > 0
+        G7.sites += len(conts) + len(exams)
+        if not conts:
+            G7.violation(('anchor-lost', 'continuation', b.path), 'no continuation value Some(<counter expr>) found after the search loop in ' + b.path)
+            continue
+        for (blk, s, inner) in conts:
+            if advanced_once and inner == ('place', counter):
+                G7.ok(sample={'function': b.path, 'counter': counter, 'advanced_exactly_once_after_each_examination': True, 'continuation': show(inner)})
+            elif advanced_once:
+                G7.violation(('continuation-skips', b.path, show(inner)),
+                             'search paging: on every exit of the search loop `%s` already denotes the first unexamined position (advanced exactly once after each examined element), but the continuation returned is %s: '
+                             'the next page skips stream position(s)' % (counter, show(inner)), where=b.loc(s.sp))
+            else:
+                x, st, k = bad
+                G7.violation(('counter-advance', b.path, 'inc%d' % k), 'search paging: the loop counter `%s` is advanced %d times between examining an element and leaving the loop on some path' % (counter, k),
+                             where=b.loc(None), witness={'block_path': ex.witness(x, st)[-30:]})
+    G7.floor('search functions with an examination loop', n, 1)
